@@ -14,6 +14,8 @@ import (
 	"math/rand"
 	"os"
 	"strings"
+	"sync"
+	"time"
 
 	"github.com/paulsonkoly/chess-3/board"
 	. "github.com/paulsonkoly/chess-3/chess"
@@ -42,6 +44,88 @@ type Ev struct {
 	Hard  L     `json:"hard"`
 	Alt   []Alt `json:"alt"`
 	Drv   *L    `json:"drv,omitempty"`
+	Dl    *Dl   `json:"dl,omitempty"`
+}
+
+// Dl is one deadline probe: a blocking search under `go wtime ...` while the GUI keeps talking.
+type Dl struct {
+	Kind    string `json:"kind"`    // what the GUI sends while the search runs
+	Ponder  bool   `json:"ponder"`  // go ponder ... ponderhit: the deadline counts from the ponderhit
+	Hard    int64  `json:"hard"`    // ms, from VerifLimits
+	Slack   int64  `json:"slack"`   // ms granted for scheduling noise
+	Lines   int    `json:"lines"`   // input lines sent while the search was running
+	ByTimer bool   `json:"byTimer"` // the stop channel closed while we were still only sending harmless lines
+	After   int64  `json:"after"`   // ms from go (or ponderhit) to the close of the stop channel
+}
+
+// blockSearch blocks until the driver closes the stop channel.
+type blockSearch struct {
+	started chan struct{}
+	stopped chan time.Time
+}
+
+func (m *blockSearch) Go(b *board.Board, opts ...search.Option) (Score, move.Move, move.Move) {
+	o := search.Options{}
+	for _, f := range opts {
+		f(&o)
+	}
+	close(m.started)
+	<-o.Stop
+	m.stopped <- time.Now()
+	return 0, 0, 0
+}
+func (m *blockSearch) Clear()       {}
+func (m *blockSearch) ResizeTT(int) {}
+
+// deadlineProbe: the hard deadline must end the search however many (harmless) lines the GUI
+// sends meanwhile. No assertion on being early or exact: only "not later than hard + slack".
+func deadlineProbe(kind string, ponder bool, wtime int64, slack int64) Dl {
+	_, _, hard := uci.VerifLimits(wtime, wtime, 0, 0, 0, White)
+	ms := &blockSearch{started: make(chan struct{}), stopped: make(chan time.Time, 1)}
+	pr, pw := io.Pipe()
+	done := make(chan struct{})
+	d := uci.NewDriver(uci.WithInput(pr), uci.WithOutput(io.Discard), uci.WithError(io.Discard), uci.WithSearch(ms))
+	go func() { d.Run(); close(done) }()
+	if ponder {
+		fmt.Fprintf(pw, "setoption name Ponder value true\n")
+		fmt.Fprintf(pw, "go ponder wtime %d btime %d\n", wtime, wtime)
+	} else {
+		fmt.Fprintf(pw, "go wtime %d btime %d\n", wtime, wtime)
+	}
+	<-ms.started
+	if ponder {
+		time.Sleep(50 * time.Millisecond)
+		fmt.Fprintf(pw, "ponderhit\n")
+	}
+	t0 := time.Now()
+	res := Dl{Kind: kind, Ponder: ponder, Hard: hard, Slack: slack}
+	line := map[string]string{"isready": "isready\n", "unknown": "xyzzy 1 2 3\n", "debug": "debug on\n", "none": ""}[kind]
+	tick := time.NewTicker(15 * time.Millisecond)
+	defer tick.Stop()
+	limit := time.After(time.Duration(hard+slack) * time.Millisecond)
+	var at time.Time
+loop:
+	for {
+		select {
+		case at = <-ms.stopped:
+			res.ByTimer = true
+			break loop
+		case <-limit:
+			fmt.Fprintf(pw, "stop\n")
+			at = <-ms.stopped
+			break loop
+		case <-tick.C:
+			if line != "" {
+				fmt.Fprint(pw, line)
+				res.Lines++
+			}
+		}
+	}
+	res.After = at.Sub(t0).Milliseconds()
+	fmt.Fprintf(pw, "quit\n")
+	pw.Close()
+	<-done
+	return res
 }
 
 type mockSearch struct{ soft int64 }
@@ -82,6 +166,7 @@ func main() {
 	seed := flag.Int64("seed", 1, "")
 	out := flag.String("out", "", "")
 	one := flag.String("one", "", "replay a single clock state: w,b,wi,bi,mt,stm")
+	dlOnly := flag.Bool("deadline", false, "only the deadline probes")
 	flag.Parse()
 	f, err := os.Create(*out)
 	if err != nil {
@@ -97,7 +182,8 @@ func main() {
 		n++
 		// the opponent's clock is drawn for every state so that all shards see the same stream
 		opp, oinc := 1+rng.Int63n(1_000_000), rng.Int63n(100_000)
-		alts := [][2]int64{{1, 0}, {opp * 7, oinc + 13}, {1_000_000_000_000, 1_000_000_000}, {own, inc}, {29, 1}}
+		// other states of the OPPONENT's clock, including "not reported" (0) and nonsense (negative)
+		alts := [][2]int64{{1, 0}, {opp * 7, oinc + 13}, {1_000_000_000_000, 1_000_000_000}, {own, inc}, {29, 1}, {0, 0}, {-5, -5}, {0, 1000}}
 		if n%*nshards != *shard {
 			return
 		}
@@ -123,6 +209,34 @@ func main() {
 			panic(err)
 		}
 	}
+	if (*shard == 0 && *one == "") || *dlOnly {
+		// deadline probes, concurrently (they mostly sleep)
+		type pr struct {
+			kind   string
+			ponder bool
+			wtime  int64
+		}
+		probes := []pr{{"isready", false, 3000}, {"unknown", false, 4500}, {"debug", false, 2000}, {"none", false, 3000},
+			{"isready", true, 3000}, {"unknown", true, 2400}}
+		res := make([]Dl, len(probes))
+		var wg sync.WaitGroup
+		for i, p := range probes {
+			wg.Add(1)
+			go func() {
+				defer wg.Done()
+				res[i] = deadlineProbe(p.kind, p.ponder, p.wtime, 5000)
+			}()
+		}
+		wg.Wait()
+		for i := range res {
+			if err := enc.Encode(Ev{Alt: []Alt{}, Dl: &res[i]}); err != nil {
+				panic(err)
+			}
+		}
+		if *dlOnly {
+			return
+		}
+	}
 	if *one != "" {
 		var wv, bv, wiv, biv, mtv int64
 		var st int
@@ -133,7 +247,7 @@ func main() {
 		if st == 1 {
 			own, inc = bv, biv
 		}
-		for _, a := range [][2]int64{{1, 0}, {777, 13}, {1_000_000_000_000, 1_000_000_000}, {own, inc}, {29, 1}} {
+		for _, a := range [][2]int64{{1, 0}, {777, 13}, {1_000_000_000_000, 1_000_000_000}, {own, inc}, {29, 1}, {0, 0}, {-5, -5}, {0, 1000}} {
 			w2, b2, wi2, bi2 := own, a[0], inc, a[1]
 			if st == 1 {
 				w2, b2, wi2, bi2 = a[0], own, a[1], inc
